@@ -211,6 +211,9 @@ class World(object):
         self.executor_type = case.get('executor', 'local')
         self.evict = bool(case.get('evict'))
         self.pending_async = []
+        # hold_async mode: results of these tasks stay withheld (a gate the
+        # check opens later, e.g. after a resume)
+        self.async_gate = None
         self.withheld = set()       # action ids whose result is never sent
         self.attempts = {}
         self.occ = {}
@@ -596,9 +599,16 @@ class World(object):
 
     def _release_one_async(self):
         """hold_async mode: async results are delivered one at a time, only
-        when nothing else can run, in the order given by async_order."""
+        when nothing else can run, in the order given by async_order.
+        Results for which `async_gate(world, action_ex_id)` is true stay
+        withheld until the check removes the gate."""
         with self.lock:
-            if not self.pending_async:
+            idxs = list(range(len(self.pending_async)))
+            if self.async_gate is not None:
+                idxs = [i for i in idxs
+                        if not self.async_gate(self,
+                                               self.pending_async[i][0])]
+            if not idxs:
                 return False
             order = self.async_order or []
 
@@ -609,8 +619,7 @@ class World(object):
                 i = self.async_item_of.get(item[0])
                 return (order.index(t) if t in order else len(order),
                         iorder.index(i) if i in iorder else len(iorder))
-            best = min(range(len(self.pending_async)),
-                       key=lambda i: (prio(self.pending_async[i]), i))
+            best = min(idxs, key=lambda i: (prio(self.pending_async[i]), i))
             action_ex_id, outcome = self.pending_async.pop(best)
         self.engine_cast('on_action_complete', action_ex_id=action_ex_id,
                          result=vactions.make_result(outcome),
